@@ -10,9 +10,14 @@
 EXTENDS Integers, Sequences
 CONSTANTS Zero, Add(_, _), Mul(_, _), Sub(_, _), Leq(_, _)
 
+(* TLC evaluates a function constructor [i \in S |-> e] LAZILY: e is re-evaluated at every application, and Len() of *)
+(* such a value evaluates ALL its entries.  Concatenating with the empty sequence turns it into an explicit tuple whose *)
+(* entries are evaluated once - semantically the identity on sequences.  Every constructor below is eager.              *)
+Eager(f) == f \o <<>>
+
 RECURSIVE SumSeq(_, _)
 SumSeq(s, i) == IF i > Len(s) THEN Zero ELSE Add(s[i], SumSeq(s, i + 1))
-Sum(s) == SumSeq(s, 1)
+Sum(s) == SumSeq(Eager(s), 1)
 
 Dim(v)    == Len(v)
 Rows(A)   == Len(A)
@@ -20,25 +25,25 @@ Cols(A)   == IF Len(A) = 0 THEN 0 ELSE Len(A[1])
 IsMat(A, r, c) == Len(A) = r /\ \A i \in 1..r : Len(A[i]) = c
 
 Dot(u, v)      == Sum([i \in 1..Len(u) |-> Mul(u[i], v[i])])
-VSub(u, v)     == [i \in 1..Len(u) |-> Sub(u[i], v[i])]
-VAdd(u, v)     == [i \in 1..Len(u) |-> Add(u[i], v[i])]
-VScale(c, v)   == [i \in 1..Len(v) |-> Mul(c, v[i])]
+VSub(u, v)     == Eager([i \in 1..Len(u) |-> Sub(u[i], v[i])])
+VAdd(u, v)     == Eager([i \in 1..Len(u) |-> Add(u[i], v[i])])
+VScale(c, v)   == Eager([i \in 1..Len(v) |-> Mul(c, v[i])])
 Norm2(v)       == Dot(v, v)
-MatVec(A, v)   == [i \in 1..Len(A) |-> Dot(A[i], v)]
-Col(A, j)      == [i \in 1..Len(A) |-> A[i][j]]
-Transpose(A)   == [j \in 1..Cols(A) |-> Col(A, j)]
-MatMul(A, C)   == [i \in 1..Len(A) |-> [j \in 1..Cols(C) |-> Dot(A[i], Col(C, j))]]
-MAdd(A, C)     == [i \in 1..Len(A) |-> VAdd(A[i], C[i])]
-MSub(A, C)     == [i \in 1..Len(A) |-> VSub(A[i], C[i])]
-MScale(c, A)   == [i \in 1..Len(A) |-> VScale(c, A[i])]
-Outer(u, v)    == [i \in 1..Len(u) |-> [j \in 1..Len(v) |-> Mul(u[i], v[j])]]
+MatVec(A, v)   == Eager([i \in 1..Len(A) |-> Dot(A[i], v)])
+Col(A, j)      == Eager([i \in 1..Len(A) |-> A[i][j]])
+Transpose(A)   == Eager([j \in 1..Cols(A) |-> Col(A, j)])
+MatMul(A, C)   == LET Ct == Transpose(C) IN Eager([i \in 1..Len(A) |-> Eager([j \in 1..Len(Ct) |-> Dot(A[i], Ct[j])])])
+MAdd(A, C)     == Eager([i \in 1..Len(A) |-> VAdd(A[i], C[i])])
+MSub(A, C)     == Eager([i \in 1..Len(A) |-> VSub(A[i], C[i])])
+MScale(c, A)   == Eager([i \in 1..Len(A) |-> VScale(c, A[i])])
+Outer(u, v)    == Eager([i \in 1..Len(u) |-> Eager([j \in 1..Len(v) |-> Mul(u[i], v[j])])])
 Gram(L)        == MatMul(Transpose(L), L)             \* L^T L
 QuadForm(M, v) == Dot(v, MatVec(M, v))                \* v^T M v
 Trace(A)       == Sum([i \in 1..Len(A) |-> A[i][i]])
 Frob2(A)       == Sum([i \in 1..Len(A) |-> Norm2(A[i])])
 IsSym(A)       == \A i \in 1..Len(A) : \A j \in 1..Len(A) : A[i][j] = A[j][i]
-Ident(n, one)  == [i \in 1..n |-> [j \in 1..n |-> IF i = j THEN one ELSE Zero]]
-ZeroVec(n)     == [i \in 1..n |-> Zero]
-ZeroMat(r, c)  == [i \in 1..r |-> ZeroVec(c)]
+Ident(n, one)  == Eager([i \in 1..n |-> Eager([j \in 1..n |-> IF i = j THEN one ELSE Zero])])
+ZeroVec(n)     == Eager([i \in 1..n |-> Zero])
+ZeroMat(r, c)  == Eager([i \in 1..r |-> ZeroVec(c)])
 MatInner(A, C) == Sum([i \in 1..Len(A) |-> Dot(A[i], C[i])])   \* <A, C> = tr(A^T C)
 =============================================================================
